@@ -435,7 +435,7 @@ def shape(spec, toks, with_scale=False):
         elif k == "i":
             out.append(_ic(int(t[1:])))
         elif k == "cc":
-            out.append("cc")
+            out.append("cc=" + t[1:])
         elif k == "u8":
             out.append("u8")
         elif k in ("lm", "jl"):
@@ -463,6 +463,8 @@ def plausible(spec, toks):
             n = spec.name
             if re.match(r"^(sar|shl|shr|rol|ror)", n):
                 ok = -128 <= v < 128
+            elif n.startswith("testb_"):
+                ok = 0 <= v < 256
             elif re.match(r"^\w+b_", n):
                 ok = -128 <= v < 256
             elif n == "movq_ri":
